@@ -35,7 +35,8 @@ CLASSES = objs.SOURCE_CLASSES + ["Sensor", "CustomSource", "Collection"]
 def plan(tier):
     return {"shards": 16, "budget_s": 40 if tier == "quick" else 600,
             "required_counters": ["figures", "body_vertices_checked", "extent_checks", "conductor_checks",
-                                  "path_trace_checks", "glyph_checks", "nonmodification_checks", "bad_kwarg_cases", "mpl_figures"]
+                                  "path_trace_checks", "glyph_checks", "nonmodification_checks", "bad_kwarg_cases", "mpl_figures",
+                                  "animated_figures", "animation_frames_checked", "animations_with_subsampled_path"]
             + ["cls:" + c for c in CLASSES]}
 
 
@@ -78,6 +79,15 @@ def gen_case(rng):
     if rng.random() < 0.2 and specs[0]["cls"] not in ("Collection", "Sensor", "Dipole", "CustomSource"):
         case["backend"] = "matplotlib"  # one object per figure: artists carry no object identity
         case["specs"] = specs[:1]
+    elif rng.random() < 0.12:
+        # animation: bodies on long paths, fewer frames than path entries (the displayed indices are a subset)
+        La = int(rng.integers(5, 16))
+        case["specs"] = [gen_obj(rng, str(rng.choice(["Cuboid", "Cylinder", "Sphere", "Tetrahedron", "TriangularMesh"])),
+                                 int(rng.choice([La, La, 1])), scale) for _ in range(int(rng.integers(1, 3)))]
+        case["frames"] = None
+        case["animation"] = {"arg": [True, 2, 3][int(rng.integers(0, 3))],   # (a float time, documented, is rejected: not C19)
+                             "maxframes": [None, 3, 4, 7][int(rng.integers(0, 4))],
+                             "fps": [None, 2, 10][int(rng.integers(0, 3))]}
     return case
 
 
@@ -321,11 +331,78 @@ def check_case_mpl(ctx, case):
         plt.close("all")
 
 
+def check_case_anim(ctx, case):
+    """animated figure (plotly frames): the frame announced as 'path index: k' shows every body at its pose of
+    path index k (objects with shorter paths at their last pose); nothing is modified"""
+    import magpylib as magpy
+
+    try:
+        with quiet():
+            objects = [objs.build(s) for s in case["specs"]]
+    except Exception as e:
+        ctx.inconclusive_case("setup: " + repr(e)[:100], None)
+        return
+    a = case["animation"]
+    kw = dict(style_magnetization_show=False, style_orientation_show=False, style_path_show=False, animation=a["arg"])
+    if a["maxframes"] is not None:
+        kw["animation_maxframes"] = a["maxframes"]
+    if a["fps"] is not None:
+        kw["animation_fps"] = a["fps"]
+    if case["units"] != "auto":
+        kw["units_length"] = case["units"]
+    before = (D.digest_many(objects), D.digest_defaults())
+    try:
+        with quiet():
+            fig = magpy.show(*objects, backend="plotly", return_fig=True, **kw)
+    except Exception as e:
+        ctx.violation({"kind": "show-raised", "type": type(e).__name__, "units": case["units"], "animation": True}, case, exc_info(e))
+        return
+    ctx.count("animated_figures")
+    ctx.evaluated(case, nontrivial=True)
+    ctx.count("nonmodification_checks")
+    after = (D.digest_many(objects), D.digest_defaults())
+    if after != before:
+        ctx.violation({"kind": "show-modified-objects-or-defaults", "animation": True}, case,
+                      {"objects": D.diff(before[0], after[0]), "defaults": D.diff(before[1], after[1])})
+        return
+    Lmax = max(objs.path_len(s) for s in case["specs"])
+    if Lmax == 1 or not fig.frames:
+        ctx.count("animation_without_path")
+        return
+    title = fig.layout.scene.xaxis.title.text or ""
+    m = re.search(r"\(([^)]+)\)", title)
+    if not m or m.group(1) not in UNIT:
+        ctx.violation({"kind": "axis-title-without-known-unit", "animation": True}, case, {"title": title})
+        return
+    unit = UNIT[m.group(1)]
+    if len(fig.frames) < Lmax:
+        ctx.count("animations_with_subsampled_path")
+    for fr in fig.frames:
+        t = (fr.layout.title.text if fr.layout and fr.layout.title else "") or ""
+        mm = re.search(r"path index:\s*0*(\d+)", t)
+        if not mm:
+            ctx.inconclusive_case("frame title does not announce a path index: " + t[:60], None)
+            return
+        ind = int(mm.group(1)) - 1
+        ctx.count("animation_frames_checked")
+        for o, sp in zip(objects, case["specs"]):
+            traces = [tr for tr in fr.data if (tr.legendgroup or "") == repr(o) and tr.type == "mesh3d"]
+            if not traces:
+                ctx.violation({"cls": sp["cls"], "kind": "object-not-drawn", "animation": True}, case, {"frame": t})
+                return
+            pts = np.concatenate([trace_points(tr) for tr in traces]) * unit
+            frozen = objs.freeze(sp, ind)
+            if not check_body(ctx, {**case, "frames": None}, frozen, pts, {"cls": sp["cls"], "decorations": False, "animation": True}):
+                return
+
+
 def check_case(ctx, case):
     import magpylib as magpy
 
     if case.get("backend") == "matplotlib":
         return check_case_mpl(ctx, case)
+    if case.get("animation"):
+        return check_case_anim(ctx, case)
 
     try:
         with quiet():
